@@ -1652,6 +1652,23 @@ def _thread_known_variants(f):
 
 
 
+_GPARAM = re.compile(r"[A-Za-z_][A-Za-z0-9_]*/#(\d+)")
+
+
+def _subst_generics(o, gargs):
+    """Deep copy of a MIR fragment of a generic helper with its type parameters (`Name/#i`) replaced by the generic
+    arguments of the call being inlined, so that the types named inside the inlined code are the caller's."""
+    def sub(txt):
+        return _GPARAM.sub(lambda m: gargs[int(m.group(1))] if int(m.group(1)) < len(gargs) else m.group(0), txt)
+    if isinstance(o, str):
+        return sub(o) if "/#" in o else o
+    if isinstance(o, list):
+        return [_subst_generics(x, gargs) for x in o]
+    if isinstance(o, dict):
+        return {k: _subst_generics(v, gargs) for k, v in o.items()}
+    return o
+
+
 def _rename_local(o, a, b):
     """In place: every occurrence of local a (as a place root or an index) becomes local b."""
     if isinstance(o, list):
@@ -1728,6 +1745,8 @@ def _inline_unknown_helpers(d, record, max_blocks=120, max_depth=4):
                 i += 1
                 continue
             loff, boff = len(f["locals"]), len(f["blocks"])
+            if t.get("gargs") and g.get("generic", "/#" in json.dumps(g["blocks"]) or any("/#" in x for x in g["locals"])):
+                g = dict(g, locals=_subst_generics(g["locals"], t["gargs"]), blocks=_subst_generics(g["blocks"], t["gargs"]))
             # parameters
             for k, a in enumerate(t["args"]):
                 blk["st"].append({"s": "assign", "pl": {"l": loff + k + 1, "p": []}, "rv": {"rv": "use", "op": a}, "line": t.get("line", 0), "inl": cid})
